@@ -375,7 +375,8 @@ pub fn run_c07(env: &mut Env) -> Outcome {
         let mut params = ServerParams::default_for(2);
         params.cert = ctx.choose("cert", crate::refsrv::server::FIXTURES.len() as u64) as usize;
         let net = gen_benign_net(&mut ctx);
-        ctx.step_budget = 60_000;
+        // a resized TSRequest can carry 70000 octets and the transport may hand them over one at a time
+        ctx.step_budget = 600_000;
         (cfg, params, net)
     };
     let world = World::new(ctxrc.clone(), params.clone(), net);
